@@ -5,6 +5,7 @@ import (
 	"fmt"
 	"strings"
 	"sync"
+	"sync/atomic"
 	"time"
 
 	"github.com/bluenviron/gortsplib/v5"
@@ -56,6 +57,7 @@ type rpkt struct {
 }
 
 type dReader struct {
+	wire    *wireLog
 	died    error // set when the client terminated (Wait returned)
 	proto   string
 	c       *gortsplib.Client
@@ -125,8 +127,31 @@ func runDelivery(c DeliveryCase) (*dStats, error) {
 	writeTo := func(mi int, pkt *rtp.Packet) error { return w.Stream.WritePacketRTP(desc.Medias[mi], pkt) }
 	var fwdMu sync.Mutex
 	fwdRefused := map[int]map[uint16]bool{}
+	var arrived atomic.Int64 // packets the server has received from the publisher
+	srvSeqs := map[uint8][]uint16{} // record direction: sequence numbers in the order the server's packet callback saw them, by payload type
+	quiesce := func() {
+		// wait until the count of arrived packets has been stable for 60 ms (at most 3 s)
+		deadline := time.Now().Add(3 * time.Second)
+		last, since := arrived.Load(), time.Now()
+		for time.Now().Before(deadline) {
+			time.Sleep(5 * time.Millisecond)
+			if n := arrived.Load(); n != last {
+				last, since = n, time.Now()
+			} else if time.Since(since) > 60*time.Millisecond {
+				return
+			}
+		}
+	}
 	if c.Direction == "record" {
 		w.H.Forward = true
+		w.H.OnRecvRTP = func(_ int, _ int, _ format.Format, p *rtp.Packet) {
+			arrived.Add(1)
+			fwdMu.Lock()
+			if len(srvSeqs[p.PayloadType]) < 4000 {
+				srvSeqs[p.PayloadType] = append(srvSeqs[p.PayloadType], p.SequenceNumber)
+			}
+			fwdMu.Unlock()
+		}
 		w.H.OnForwardErr = func(mi int, pkt *rtp.Packet, err error) {
 			// the application (the writer into the stream) was told: no delivery obligation for this packet
 			fwdMu.Lock()
@@ -207,6 +232,12 @@ func runDelivery(c DeliveryCase) (*dStats, error) {
 		cl := NewClient(w.Scheme, w.Host, &proto)
 		// a playing client gives up when no packet arrives within ReadTimeout: an idle stream must not end the reader
 		cl.ReadTimeout = 60 * time.Second
+		cl.InitialUDPReadTimeout = 60 * time.Second // (a UDP reader that has received nothing yet is given up after this, whatever ReadTimeout says)
+		if !c.Secure && (r.proto == "tcp" || r.proto == "http") {
+			// diagnostic only: the order in which interleaved frames reach this reader's socket
+			r.wire = &wireLog{}
+			cl.DialContext = tapDial(r.wire)
+		}
 		switch r.proto {
 		case "http":
 			cl.Tunnel = gortsplib.TunnelHTTP
@@ -374,6 +405,12 @@ func runDelivery(c DeliveryCase) (*dStats, error) {
 				if st.Written > 0 {
 					st.MidJoin = true
 				}
+				if c.Secure && c.Direction == "record" {
+					// packets still on their way from the publisher would be forwarded between this reader's SETUP (where
+					// it is told the SRTP roll-over counter) and its PLAY; if the sequence number wraps among them the
+					// reader can never synchronise (a limit of the key exchange, not of the library): let them arrive first
+					quiesce()
+				}
 				if err := join(r); err != nil {
 					// a reader that cannot join is outside this property (C01 judges delivery to readers
 					// whose PLAY completed); it is counted, not judged
@@ -468,8 +505,45 @@ func runDelivery(c DeliveryCase) (*dStats, error) {
 				}
 			}
 			if found < 0 {
-				return st, fmt.Errorf("reader %d (%s): packet %d for media %d format %d (seq %d, pt %d, %d bytes) was never written to that format after the previously delivered one (duplicate, reordered or foreign packet)",
-					ri, r.proto, gi, g.media, g.format, g.p.SequenceNumber, g.p.PayloadType, len(g.snap))
+				// say what it is: the same written packet again, an earlier one, or none at all
+				what, prev := "a packet that was never written to that format", "nothing delivered for that format before"
+				if li, ok := lastIdx[k]; ok {
+					prev = fmt.Sprintf("previously delivered: written packet #%d (seq %d)", li, ws[li].seq)
+					for j := li; j >= 0; j-- {
+						if ws[j].seq == g.p.SequenceNumber {
+							what = fmt.Sprintf("written packet #%d again or out of order (a duplicate when it is #%d itself)", j, li)
+							break
+						}
+					}
+				}
+				var seqs []uint16
+				for _, x := range got {
+					if key(x.media, x.format) == k && len(seqs) < 40 {
+						seqs = append(seqs, x.p.SequenceNumber)
+					}
+				}
+				fwdMu.Lock()
+				atServer := append([]uint16(nil), srvSeqs[g.p.PayloadType]...)
+				fwdMu.Unlock()
+				if len(atServer) > 60 {
+					atServer = atServer[len(atServer)-60:]
+				}
+				onWire := "not tapped"
+				if r.wire != nil {
+					var ws2 []int
+					for _, p := range r.wire.snapshot() {
+						if p.Dir == "s2c" && !p.isRTCP() && len(p.Head) >= 2 && p.Head[1]&0x7f == g.p.PayloadType {
+							ws2 = append(ws2, p.seq())
+						}
+					}
+					if len(ws2) > 60 {
+						ws2 = ws2[len(ws2)-60:]
+					}
+					onWire = fmt.Sprint(ws2)
+				}
+				what += "; order of that payload type's frames on this reader's socket (tail): " + onWire
+				return st, fmt.Errorf("reader %d (%s): delivered packet %d, for media %d format %d (seq %d, pt %d, %d bytes), is %s; %s; sequence numbers delivered for that format: %v (%d written, first seq %d); record direction: order in which the server's own packet callback saw that payload type (tail): %v",
+					ri, r.proto, gi, g.media, g.format, g.p.SequenceNumber, g.p.PayloadType, len(g.snap), what, prev, seqs, len(ws), firstSeqOf(ws), atServer)
 			}
 			wp := ws[found]
 			if g.p.PayloadType != wp.pt || g.p.Timestamp != wp.ts || g.p.Marker != wp.marker || !bytes.Equal(g.snap, wp.payload) {
@@ -505,4 +579,11 @@ func runDelivery(c DeliveryCase) (*dStats, error) {
 		}
 	}
 	return st, nil
+}
+
+func firstSeqOf(ws []wpkt) int {
+	if len(ws) == 0 {
+		return -1
+	}
+	return int(ws[0].seq)
 }
